@@ -579,7 +579,7 @@ def m_runloop(ctx, case):
     orig = d.process_raw
 
     def spy(adsb_ts, adsb_msg, commb_ts, commb_msg, tnow=None):
-        seen.append((tuple(adsb_msg), tuple(commb_msg)))
+        seen.append((tuple(adsb_msg), tuple(commb_msg), tuple(adsb_ts), tuple(commb_ts)))
         # the live loop stamps with wall-clock time; use the batch's own time so that histories stay meaningful
         ts = list(adsb_ts) + list(commb_ts)
         return orig(adsb_ts, adsb_msg, commb_ts, commb_msg, tnow=max(ts) if ts else 0)
@@ -597,11 +597,15 @@ def m_runloop(ctx, case):
         ctx.violation("decode-run-raises", error="%s: %s" % (type(e).__name__, str(e)[:100]))
         return
     ctx.ev(len(seen))
-    exp = [(tuple(b["adsb_msg"]), tuple(b["commb_msg"])) for b in batches]
+    exp = [(tuple(b["adsb_msg"]), tuple(b["commb_msg"]), tuple(b["adsb_ts"]), tuple(b["commb_ts"])) for b in batches]   # messages AND their own stamps
     if q.items:
         ctx.violation("decode-run-reports-exception", first=str(q.items[0])[:300])
     elif seen != exp:
-        ctx.violation("decode-run-batches-not-exactly-once", processed=len(seen), expected=len(exp))
+        k_ = next((j for j in range(min(len(seen), len(exp))) if seen[j] != exp[j]), min(len(seen), len(exp)))
+        same_msgs = len(seen) == len(exp) and all(a_[:2] == b_[:2] for a_, b_ in zip(seen, exp))
+        ctx.violation("decode-run-hands-on-wrong-time-stamps" if same_msgs else "decode-run-batches-not-exactly-once", processed=len(seen),
+                      expected=len(exp), first_difference_at_batch=k_, handed_on=repr(seen[k_][2:])[:160] if k_ < len(seen) else None,
+                      fed=repr(exp[k_][2:])[:160] if k_ < len(exp) else None)
     elif acin.n == 0:
         ctx.violation("decode-run-never-publishes")
     ctx.hit("run_loop")
